@@ -280,7 +280,7 @@ func (w *world) runCase(id string, c *caseIn, mid int) (jr jobResult) {
 			"alt_acc": c.PredDesign.Acc, "alt_hdr": c.PredDesign.Hdr},
 		"obs": map[string]any{"blk_plus": int(after.blkH) - int(before.blkH), "tip_is_offer": after.tip == offered,
 			"hdrs_after": n.ids(after, offered, followerHash), "led_changed": ledDiff(before, after), "pool_changed": before.pool != after.pool,
-			"db_changed": dbDiff(before.db, after.db, offered, followerHash), "ref_equal": refEq, "pool_size": n.pooled}}
+			"db_changed": dbDiff(before.db, after.db, offered, followerHash), "ref_equal": refEq, "pool_size": n.pooled, "pool_variants": n.variants}}
 	jr.events = append(jr.events, ev)
 	if acc && c.Case.Via == "block" {
 		return
@@ -435,6 +435,11 @@ func TestDriver(t *testing.T) {
 						if ev["event"] == "offer" {
 							res.Count([]any{w.id, ev["h"], ev["src"], ev["via"], ev["state"], ev["srih"], ev["vt"], ev["kind"], ev["family"], ev["attrs"], ev["acc"], ev["err"], ev["obs"]})
 							res.Inc("offers", 1)
+							if obs, ok := ev["obs"].(map[string]any); ok {
+								if v, ok := obs["pool_variants"].(int); ok && v > 0 {
+									res.Inc("offers_with_witness_variants_pooled", 1)
+								}
+							}
 							if ev["acc"].(bool) {
 								res.Inc("offers_accepted", 1)
 							}
